@@ -404,6 +404,9 @@ type Exec struct {
 	locks     map[*Cell]*lockState
 	timerObjs map[*Cell]*timerObj
 	gojaMsgs  map[*Cell]string
+	boltFiles   map[string]*boltDBModel
+	boltTx      map[*Opaque]*boltTxState
+	boltBuckets map[*Opaque]*boltBucket
 }
 
 type inputRec struct {
